@@ -1,5 +1,6 @@
 import VermouthProofs.C11_Stages
 import VermouthProofs.C11_StagesC10
+import VermouthProofs.C11_StagesC18
 import VermouthProps.C15
 /-!
 # C11 — stage-level PRESENTATION invariance, proved on the models of the other properties
@@ -15,7 +16,7 @@ that model, for every input.  Models and their own theorems are imported read-on
 | rigid motion                          | bond guessing (C10.run)          | `bond_guessing_rigid_invariant` |
 | hydrogens renamed / atoms permuted    | repair_graph (C04.repairResidue) | `repair_names_presentation_free`, `repair_two_presentations` |
 | atom numbering of the reader          | do_mapping (C01.assemble)        | see section C01 |
-| rigid motion / node numbering         | Go model (C18.selectContacts)    | see section C18 |
+| rigid motion / node numbering         | Go model (C18.selectContacts)    | `go_contacts_rigid_invariant`, `go_pipeline_rigid_equivariant`, `go_contacts_rekey_equivariant`, `go_pipeline_rekey_outcome`, `go_rekey_nonmonotone_witness` |
 | rigid motion, composed stages         | C09.beadPos then C15.run         | `comp_invariant`, `comp_equivariant`, `bead_position_rigid_equivariant`, `placement_then_network_rigid_invariant` |
 
 Helper lemmas: `VermouthProofs/C11_Stages*.lean`.
@@ -220,5 +221,87 @@ example : resScr.block = resScr2.block := rfl
 example : atomTable (repairResidue molScr2 resScr2).mol resScr2.found
     = [("CA", 6), ("HA", 1), ("N", 7), ("C", 6), ("O", 8)] := by decide
 end ExRepair
+
+/-! ## 4. rigid motion and node numbering: the Go model (C18)
+
+Positions are read only through `C18.dist2`; node keys only through equality, through the order of the
+smallest key of each residue (`sorted(partitions, key=min)`, which fixes the residue indices and hence which
+residue wins in `_chain_id_to_resnode` when two share (chain, `_old_resid`)), and as the backbone keys written
+into the exclusions.  What is needed of a renumbering `ρ` is therefore exactly: STRICTLY INCREASING ON THE KEYS
+THE MOLECULE MENTIONS (`keys18`: node keys and both end points of every edge); nothing outside them.  An
+injective renumbering that is not order preserving can change the outcome (`go_rekey_nonmonotone_witness`). -/
+
+/-- **go_contacts_rigid_invariant.**  The Go pairs (types, squared distances, backbone keys, order) or the error
+outcome are the same after an exact rigid motion; so are the exclusions and the `nonbond_params` pairs. -/
+theorem go_contacts_rigid_invariant (A : Mat3) (hA : A.IsOrtho) (t : V3)
+    (P : C18.Params) (atoms : List C18.Atom) (edges : List (Int × Int)) (contacts : List C18.Contact) :
+    C18.selectContacts P (atoms.map (moveAtom18 (move A t))) edges contacts
+      = C18.selectContacts P atoms edges contacts :=
+  c18_select_rigid_invariant A hA t P atoms edges contacts
+
+/-- the same for every map of the lattice that preserves squared distances -/
+theorem go_contacts_isometry_invariant (f : C18.Pos → C18.Pos)
+    (hf : ∀ p q, C18.dist2 (f p) (f q) = C18.dist2 p q)
+    (P : C18.Params) (atoms : List C18.Atom) (edges : List (Int × Int)) (contacts : List C18.Contact) :
+    C18.selectContacts P (atoms.map (moveAtom18 f)) edges contacts = C18.selectContacts P atoms edges contacts :=
+  c18_select_isometry_invariant f hf P atoms edges contacts
+
+/-- **go_pipeline_rigid_equivariant.**  `GoPipeline` (virtual sites, then contacts): the sites of the moved
+molecule are the moved sites, the contact outcome is the same. -/
+theorem go_pipeline_rigid_equivariant (A : Mat3) (hA : A.IsOrtho) (t : V3)
+    (P : C18.Params) (vsn : String) (atoms : List C18.Atom) (edges : List (Int × Int))
+    (contacts : List C18.Contact) :
+    C18.goPipeline P vsn (atoms.map (moveAtom18 (move A t))) edges contacts
+      = (((C18.goPipeline P vsn atoms edges contacts).1.map (fun v => { v with pos := move A t v.pos })),
+         (C18.goPipeline P vsn atoms edges contacts).2) :=
+  c18_pipeline_rigid_equivariant A hA t P vsn atoms edges contacts
+
+/-- **go_contacts_rekey_equivariant.**  Renumbering the node keys with a `ρ` that is strictly increasing on the
+keys the molecule mentions renumbers the backbone keys of the Go pairs and changes nothing else; the
+exclusions are the renumbered exclusions, the `nonbond_params` pairs are the same. -/
+theorem go_contacts_rekey_equivariant (ρ : Int → Int)
+    (P : C18.Params) (atoms : List C18.Atom) (edges : List (Int × Int)) (contacts : List C18.Contact)
+    (hρ : ∀ x ∈ keys18 atoms edges, ∀ y ∈ keys18 atoms edges, x < y → ρ x < ρ y) :
+    C18.selectContacts P (atoms.map (rekey18 ρ)) (edges.map (fun e => (ρ e.1, ρ e.2))) contacts
+      = Outcome.rekey ρ (C18.selectContacts P atoms edges contacts)
+    ∧ ∀ out, C18.selectContacts P atoms edges contacts = .ok out →
+        ∃ out', C18.selectContacts P (atoms.map (rekey18 ρ)) (edges.map (fun e => (ρ e.1, ρ e.2))) contacts = .ok out'
+          ∧ C18.exclusionsOf out' = (C18.exclusionsOf out).map (fun e => (ρ e.1, ρ e.2))
+          ∧ C18.nonbondOf out' = C18.nonbondOf out :=
+  ⟨c18_select_rekey_equivariant ρ P atoms edges contacts hρ,
+    fun out hok => c18_exclusions_rekey_equivariant ρ P atoms edges contacts hρ out hok⟩
+
+/-- **go_pipeline_rekey_outcome.**  For the whole `GoPipeline` (the new site keys `max key + 1, ...` do NOT commute
+with `ρ`, see `c18_pipeline_rekey_site_keys_witness`): the contact outcome of the renumbered molecule is the
+renumbered outcome, provided the sites are not named like the backbone bead, the molecule is not empty and
+every edge joins nodes of the molecule. -/
+theorem go_pipeline_rekey_outcome (ρ : Int → Int)
+    (P : C18.Params) (vsn : String) (atoms : List C18.Atom) (edges : List (Int × Int))
+    (contacts : List C18.Contact) (hne : atoms ≠ []) (hvs : vsn ≠ P.backbone)
+    (hρ : ∀ x ∈ atoms.map (·.key), ∀ y ∈ atoms.map (·.key), x < y → ρ x < ρ y)
+    (hE : ∀ e ∈ edges, e.1 ∈ atoms.map (·.key) ∧ e.2 ∈ atoms.map (·.key)) :
+    (C18.goPipeline P vsn (atoms.map (rekey18 ρ)) (edges.map (fun e => (ρ e.1, ρ e.2))) contacts).2
+      = Outcome.rekey ρ (C18.goPipeline P vsn atoms edges contacts).2 :=
+  c18_pipeline_rekey_outcome ρ P vsn atoms edges contacts hne hvs hρ hE
+
+/-- **go_rekey_nonmonotone_witness.**  Order preservation cannot be dropped: three one-bead residues, the first two
+with the same `_old_resid`; exchanging the keys 1 and 2 (injective, distinct node keys) turns "no Go pair" into
+"one Go pair". -/
+theorem go_rekey_nonmonotone_witness :
+    (∀ x ∈ keys18 Ex18.dupAtoms [], ∀ y ∈ keys18 Ex18.dupAtoms [], Ex18.swap12 x = Ex18.swap12 y → x = y)
+    ∧ (Ex18.dupAtoms.map (·.key)).Nodup
+    ∧ C18.selectContacts Ex18.Pd Ex18.dupAtoms [] Ex18.dupContacts = .ok []
+    ∧ C18.selectContacts Ex18.Pd (Ex18.dupAtoms.map (rekey18 Ex18.swap12)) [] Ex18.dupContacts
+        = .ok [{ ta := "g_3", tb := "g_1", d2 := 9, bbA := 3, bbB := 2 }] := by
+  obtain ⟨h1, h2, h3, h4, _⟩ := c18_rekey_nonmonotone_witness
+  exact ⟨h1, h2, h3, h4⟩
+
+example : Ex18.rotZ.IsOrtho := by decide
+example : ∀ x ∈ keys18 Ex18.atoms Ex18.edges, ∀ y ∈ keys18 Ex18.atoms Ex18.edges, x < y → Ex18.ρ x < Ex18.ρ y := by
+  decide
+example : C18.Example.atoms ≠ [] ∧ ("CA" : String) ≠ Ex18.P.backbone
+    ∧ (∀ x ∈ C18.Example.atoms.map (·.key), ∀ y ∈ C18.Example.atoms.map (·.key), x < y → Ex18.ρ x < Ex18.ρ y)
+    ∧ (∀ e ∈ Ex18.edges, e.1 ∈ C18.Example.atoms.map (·.key) ∧ e.2 ∈ C18.Example.atoms.map (·.key)) := by
+  decide
 
 end C11
